@@ -136,6 +136,11 @@ func (v *volume) SetStatus(status string) error {
 	defer v.mu.Unlock()
 
 	if v.stats.Status == status {
+		// a volume that is being resized or removed is claimed by the operation
+		// in progress: it can not be claimed a second time
+		if status == VolumeStatusResizing || status == VolumeStatusRemoving {
+			return fmt.Errorf("volume is %v", v.stats.Status)
+		}
 		return nil
 	}
 
